@@ -174,7 +174,8 @@ func C10_Run(job string) {
 			switch {
 			case l.name == missing:
 				fails[l.name] = "required"
-			case !(l.name == "b" || l.name == "in.v" || l.name == "in.x" || l.name == "l0.v" || l.name == "l1.y" || l.name == "p.w" || l.name == "in.w"):
+			case !(l.name == "b" || l.name == "in.v" || l.name == "in.x" || l.name == "l0.v" || l.name == "l1.y" || l.name == "p.w" || l.name == "in.w" ||
+				(v.Tier() == 1 && (l.name == "in.y" || l.name == "l0.w" || l.name == "l1.x" || l.name == "p.v"))):
 				vals[l.name] = 500 // only seven leaves vary; the others pass
 			case front == "json":
 				// concrete documents
